@@ -249,6 +249,10 @@ func (e *Engine) sizeofElem(T types.Type) int64 {
 // ---- verification of one function ----
 
 func (e *Engine) verify(key string, c *Contract) *Unit {
+	if i := strings.LastIndex(key, "@"); i > 0 && e.declOf[key] == nil && e.declOf[key[:i]] != nil {
+		// variant contract: same function, own unit
+		e.declOf[key], e.declPkg[key], e.funcObj[key] = e.declOf[key[:i]], e.declPkg[key[:i]], e.funcObj[key[:i]]
+	}
 	fd := e.declOf[key]
 	p := e.declPkg[key]
 	u := &Unit{eng: e, name: shortFuncName(key), contract: c, decls: baseDecls(), heapSort: map[string]string{}, strLits: map[string]Term{}, assumed: map[string]bool{}, inputs: map[string]Term{}}
